@@ -1,4 +1,280 @@
-import TbotVerif.Spec.Chan
+import TbotVerif.Props.ChanLemmas
+/-! C02 — prompt-delimited reads. -/
+
+namespace Spec
+
+@[simp] theorem hitsOnlyAtEnd_nil (f : Bytes → Bool) (acc : Bytes) : hitsOnlyAtEnd f acc [] = false := rfl
+
+theorem hitsOnlyAtEnd_cons (f : Bytes → Bool) (acc d : Bytes) (ds : List Bytes) :
+    hitsOnlyAtEnd f acc (d :: ds) =
+      if ds = [] then f (acc ++ d) else (!f (acc ++ d) && hitsOnlyAtEnd f (acc ++ d) ds) := by
+  cases ds with
+  | nil => simp [hitsOnlyAtEnd]
+  | cons e es => simp [hitsOnlyAtEnd]
+
+@[simp] theorem neverHits_nil (f : Bytes → Bool) (acc : Bytes) : neverHits f acc [] = true := rfl
+
+@[simp] theorem neverHits_cons (f : Bytes → Bool) (acc d : Bytes) (ds : List Bytes) :
+    neverHits f acc (d :: ds) = (!f (acc ++ d) && neverHits f (acc ++ d) ds) := rfl
+
+end Spec
+
+namespace Chan
+
+theorem bytesLeft_eq (s : St) : bytesLeft s = (flat s.script).length := by
+  unfold bytesLeft flat
+  induction s.script with
+  | nil => rfl
+  | cons p ps ih => simp [List.sum_cons, ih]
+
+theorem ReadFrame.bytes {s s' : St} {recs : List ReadRec} (h : ReadFrame s s' recs) :
+    (dataOf recs).flatten.length + bytesLeft s' = bytesLeft s := by
+  rw [bytesLeft_eq, bytesLeft_eq, ← h.flat, List.length_append]
+
+@[simp] theorem dataOf_cons_some (r : ReadRec) (rs : List ReadRec) (d : Bytes) (h : r.data = some d) :
+    dataOf (r :: rs) = d :: dataOf rs := by
+  simp [dataOf, List.filterMap_cons, h]
+
+@[simp] theorem dataOf_cons_none (r : ReadRec) (rs : List ReadRec) (h : r.data = none) :
+    dataOf (r :: rs) = dataOf rs := by
+  simp [dataOf, List.filterMap_cons, h]
+
+@[simp] theorem dataOf_nil : dataOf [] = [] := rfl
+
+theorem maxRead_le (ri : RI) (c : Nat) : ri.maxRead c ≤ c := by
+  unfold RI.maxRead; split
+  · exact Nat.le_refl _
+  · exact Nat.min_le_left _ _
+
+theorem maxRead_none (ri : RI) (c : Nat) (h : ri.max = none) : ri.maxRead c = c := by
+  unfold RI.maxRead; rw [h]
+
+end Chan
+
 namespace C02
-theorem placeholder : True := trivial
+open Chan Spec
+
+abbrev atPrompt (P : Pat) : Bytes → Bool := fun b => (promptEnd P b).isSome
+
+/-- The loop of `read_until_prompt`, for every state, buffer and fuel that covers the script. -/
+theorem rupLoop_spec : ∀ (f : Nat) (buf : Bytes) (ri : RI) (s : St),
+    ri.max = none → bytesLeft s < f → WF s → 0 < s.chunk →
+    ∃ recs, ReadFrame s (rupLoop f buf ri s).2 recs ∧ (∀ r ∈ recs, r.n ≤ s.chunk) ∧
+      (∀ b full, (rupLoop f buf ri s).1 = .ok (b, full) →
+        ∃ P n, s.prompt = some P ∧ full = buf ++ (dataOf recs).flatten ∧ promptEnd P full = some n
+          ∧ b = full.take n ∧ hitsOnlyAtEnd (atPrompt P) buf (dataOf recs) = true) ∧
+      (∀ e, (rupLoop f buf ri s).1 = .error e →
+        (e = .timeout ∨ e = .hang ∨ ∃ x m, e = .death x m) ∧
+        ((e = .timeout ∨ e = .hang) → ∀ P, s.prompt = some P → neverHits (atPrompt P) buf (dataOf recs) = true)) := by
+  intro f
+  induction f with
+  | zero => intro buf ri s _ hf; omega
+  | succ f ih =>
+    intro buf ri s hmax hf hwf hc
+    unfold rupLoop
+    have hout := riNext_out ri s
+    generalize riNext ri s = out at hout
+    obtain ⟨st, ri', s'⟩ := out
+    simp only at hout
+    cases hout with
+    | done h1 h2 => rw [hmax] at h1; simp at h1
+    | expired hrem =>
+      refine ⟨[], ReadFrame.refl s, by simp, by simp, ?_⟩
+      intro e he
+      simp only [Except.error.injEq] at he
+      subst he
+      exact ⟨Or.inl rfl, fun _ P _ => rfl⟩
+    | ioErr rem rec s' e hrem hio =>
+      refine ⟨[rec], hio.frame, ?_, by simp, ?_⟩
+      · intro r hr
+        simp only [List.mem_singleton] at hr
+        subst hr; rw [hio.hn]; exact maxRead_le _ _
+      · intro e' he
+        simp only [Except.error.injEq] at he
+        subst he
+        have herr := hio.err e rfl
+        refine ⟨?_, fun _ P _ => ?_⟩
+        · rcases herr.2.1 with h | h
+          · exact Or.inl h
+          · exact Or.inr (Or.inl h)
+        · rw [dataOf_cons_none _ _ herr.1]; rfl
+    | death rem rec s1 b x m hrem hio hchk =>
+      refine ⟨[rec], chunk_frame hio, ?_, by simp, ?_⟩
+      · intro r hr
+        simp only [List.mem_singleton] at hr
+        subst hr; rw [hio.hn]; exact maxRead_le _ _
+      · intro e' he
+        simp only [Except.error.injEq] at he
+        subst he
+        exact ⟨Or.inr (Or.inr ⟨x, m, rfl⟩), fun h => by rcases h with h | h <;> simp at h⟩
+    | chunk rem rec s1 b hrem hio hchk =>
+      have hfr := chunk_frame hio
+      have hdata := (hio.ok b rfl).1
+      have hbne : b ≠ [] := (hio.ok b rfl).2.2 hwf (by rw [maxRead_none _ _ hmax]; exact hc)
+      have hrn : ∀ r ∈ [rec], r.n ≤ s.chunk := by
+        intro r hr
+        simp only [List.mem_singleton] at hr
+        subst hr; rw [hio.hn]; exact maxRead_le _ _
+      generalize hs2 : (check b (writeStream b s1)).2 = s2 at hfr
+      simp only
+      have hp2 : s2.prompt = s.prompt := hfr.prompt
+      have hbytes := hfr.bytes
+      rw [dataOf_cons_some _ _ _ hdata] at hbytes
+      simp only [dataOf_nil, List.flatten_cons, List.flatten_nil, List.append_nil] at hbytes
+      have hblen : 0 < b.length := List.length_pos_iff.mpr hbne
+      -- recursive call facts
+      have hrec := ih (buf ++ b) { ri with got := ri.got + b.length } s2 hmax (by omega) (hfr.wf hwf)
+        (by rw [hfr.chunk]; exact hc)
+      cases hpr : s2.prompt with
+      | none =>
+        simp only
+        obtain ⟨recs, hf2, hn2, hok2, herr2⟩ := hrec
+        refine ⟨rec :: recs, hfr.trans hf2, ?_, ?_, ?_⟩
+        · intro r hr
+          rcases List.mem_cons.mp hr with rfl | hr
+          · exact hrn _ (by simp)
+          · have := hn2 r hr; rw [hfr.chunk] at this; exact this
+        · intro b' full hres
+          obtain ⟨P, n, hP, _⟩ := hok2 b' full hres
+          rw [hpr] at hP; simp at hP
+        · intro e he
+          refine ⟨(herr2 e he).1, fun hto P hP => ?_⟩
+          rw [← hp2, hpr] at hP; simp at hP
+      | some P =>
+        simp only
+        cases hpe : promptEnd P (buf ++ b) with
+        | some n =>
+          simp only
+          refine ⟨[rec], hfr, hrn, ?_, by simp⟩
+          intro b' full hres
+          simp only [Except.ok.injEq, Prod.mk.injEq] at hres
+          obtain ⟨rfl, rfl⟩ := hres
+          refine ⟨P, n, by rw [← hp2, hpr], ?_, hpe, rfl, ?_⟩
+          · rw [dataOf_cons_some _ _ _ hdata]; simp
+          · rw [dataOf_cons_some _ _ _ hdata, dataOf_nil, hitsOnlyAtEnd_cons]
+            simp [atPrompt, hpe]
+        | none =>
+          simp only
+          obtain ⟨recs, hf2, hn2, hok2, herr2⟩ := hrec
+          refine ⟨rec :: recs, hfr.trans hf2, ?_, ?_, ?_⟩
+          · intro r hr
+            rcases List.mem_cons.mp hr with rfl | hr
+            · exact hrn _ (by simp)
+            · have := hn2 r hr; rw [hfr.chunk] at this; exact this
+          · intro b' full hres
+            obtain ⟨P', n, hP, hfull, hpe', hb, hhit⟩ := hok2 b' full hres
+            rw [hpr] at hP
+            simp only [Option.some.injEq] at hP
+            subst hP
+            refine ⟨P, n, by rw [← hp2, hpr], ?_, hpe', hb, ?_⟩
+            · rw [hfull, dataOf_cons_some _ _ _ hdata]; simp
+            · rw [dataOf_cons_some _ _ _ hdata, hitsOnlyAtEnd_cons]
+              have hne : dataOf recs ≠ [] := by
+                intro hc'; rw [hc'] at hhit; simp at hhit
+              simp [hne, atPrompt, hpe, hhit]
+          · intro e he
+            refine ⟨(herr2 e he).1, fun hto P' hP => ?_⟩
+            have hP' : s2.prompt = some P' := by rw [hp2]; exact hP
+            rw [hpr] at hP'
+            simp only [Option.some.injEq] at hP'
+            subst hP'
+            rw [dataOf_cons_some _ _ _ hdata, neverHits_cons]
+            have := (herr2 e he).2 hto P hpr
+            simp [atPrompt, hpe, this]
+
+/-- `read_until_prompt` on any state: frame, and the C02 laws in terms of the transport log. -/
+theorem readUntilPrompt_spec (p : Option Pat) (t : Option Nat) (s : St) (hwf : WF s) (hc : 0 < s.chunk) :
+    let P := effPrompt p s.prompt
+    ∃ recs, ReadFrame s (readUntilPrompt p t s).2 recs ∧ (∀ r ∈ recs, r.n ≤ s.chunk) ∧
+      (∀ b full, (readUntilPrompt p t s).1 = .ok (b, full) →
+        ∃ P' n, P = some P' ∧ full = (dataOf recs).flatten ∧ promptEnd P' full = some n
+          ∧ b = full.take n ∧ hitsOnlyAtEnd (atPrompt P') [] (dataOf recs) = true) ∧
+      (∀ e, (readUntilPrompt p t s).1 = .error e →
+        (e = .timeout ∨ e = .hang ∨ ∃ x m, e = .death x m) ∧
+        ((e = .timeout ∨ e = .hang) → ∀ P', P = some P' → neverHits (atPrompt P') [] (dataOf recs) = true)) := by
+  intro P
+  unfold readUntilPrompt
+  simp only
+  cases p with
+  | none =>
+    simp only
+    obtain ⟨recs, hf, hn, hok, herr⟩ := rupLoop_spec (fuelFor s) [] (riStart none t s) s rfl
+      (by unfold fuelFor; omega) hwf hc
+    refine ⟨recs, hf, hn, ?_, herr⟩
+    intro b full h
+    obtain ⟨P', n, h1, h2, h3, h4, h5⟩ := hok b full h
+    exact ⟨P', n, h1, by simpa using h2, h3, h4, h5⟩
+  | some p =>
+    have hPdef : P = some (anchor p) := rfl
+    simp only
+    generalize hs1 : ({ s with prompt := some (anchor p) } : St) = s1
+    have hwf1 : WF s1 := by subst hs1; exact hwf
+    have hc1 : 0 < s1.chunk := by subst hs1; exact hc
+    obtain ⟨recs, hf, hn, hok, herr⟩ := rupLoop_spec (fuelFor s1) [] (riStart none t s1) s1 rfl
+      (by unfold fuelFor; omega) hwf1 hc1
+    have hp1 : s1.prompt = some (anchor p) := by subst hs1; rfl
+    refine ⟨recs, ?_, ?_, ?_, ?_⟩
+    · subst hs1
+      exact {
+        reads := hf.reads, chunk := hf.chunk, slice := hf.slice, prompt := rfl, blacklist := hf.blacklist,
+        accept := hf.accept, writes := hf.writes, slowDelay := hf.slowDelay, slowChunk := hf.slowChunk,
+        streams := hf.streams, logPrompt := hf.logPrompt, flat := hf.flat, now := hf.now,
+        wf := fun h => hf.wf h }
+    · intro r hr; have := hn r hr; subst hs1; exact this
+    · intro b full h
+      obtain ⟨P', n, h1, h2, h3, h4, h5⟩ := hok b full h
+      rw [hp1] at h1
+      exact ⟨P', n, by rw [hPdef]; exact h1, by simpa using h2, h3, h4, h5⟩
+    · intro e he
+      refine ⟨(herr e he).1, fun hto P' hP => (herr e he).2 hto P' ?_⟩
+      rw [hp1, ← hPdef]; exact hP
+
+/-- **C02 (per call).**  For every reachable-or-not channel state, prompt, timeout and script:
+    the observation of a `read_until_prompt` call satisfies the specification. -/
+theorem rup_spec (r : RunSt) (p : Option Pat) (t : Option Nat) (hwf : WF r.st) (hc : 0 < r.st.chunk) :
+    Spec.c02 (Cfg.ofRun r) (.rup p t) (obsOp (.rup p t) r).1 = true := by
+  generalize hs0 : ({ r.st with reads := [], writes := [], fwd := [] } : St) = s0
+  have hwf0 : WF s0 := by subst hs0; exact hwf
+  have hc0 : 0 < s0.chunk := by subst hs0; exact hc
+  have hpr0 : s0.prompt = r.st.prompt := by subst hs0; rfl
+  have hch0 : s0.chunk = r.st.chunk := by subst hs0; rfl
+  have hrd0 : s0.reads = [] := by subst hs0; rfl
+  obtain ⟨recs, hf, hn, hok, herr⟩ := readUntilPrompt_spec p t s0 hwf0 hc0
+  unfold obsOp runOp
+  simp only [hs0]
+  have hreads : (readUntilPrompt p t s0).2.reads = recs := by rw [hf.reads, hrd0]; rfl
+  unfold Spec.c02 Spec.c02Op Spec.delivered
+  cases hres : readUntilPrompt p t s0 with
+  | mk res s1 =>
+    rw [hres] at hreads hok herr
+    simp only at hreads hok herr
+    cases res with
+    | ok v =>
+      obtain ⟨b, full⟩ := v
+      obtain ⟨P', n, hP, hfull, hpe, hb, hhit⟩ := hok b full rfl
+      simp only [hreads, Cfg.ofRun, ← hpr0]
+      have hd : List.filterMap (fun x => x.data) recs = dataOf recs := rfl
+      rw [hP, hd, ← hfull]
+      simp only [hpe]
+      simp only [Bool.and_eq_true, List.all_eq_true, decide_eq_true_eq, beq_iff_eq]
+      refine ⟨⟨by rw [hb], hhit⟩, fun x hx => ?_⟩
+      rw [← hch0]; exact hn x hx
+    | error e =>
+      obtain ⟨hkind, hnever⟩ := herr e rfl
+      simp only [hreads, Cfg.ofRun, ← hpr0]
+      have hd : List.filterMap (fun x => x.data) recs = dataOf recs := rfl
+      have hall : (recs.all fun r' => decide (r'.n ≤ r.st.chunk)) = true := by
+        simp only [List.all_eq_true, decide_eq_true_eq]
+        intro x hx; rw [← hch0]; exact hn x hx
+      rcases hkind with rfl | rfl | ⟨x, m, rfl⟩
+      · simp only [hd, hall, Bool.and_true]
+        split
+        · rfl
+        · rename_i P' hP; exact hnever (Or.inl rfl) P' hP
+      · simp only [hd, hall, Bool.and_true]
+        split
+        · rfl
+        · rename_i P' hP; exact hnever (Or.inr rfl) P' hP
+      · simp only [hall, Bool.and_true]
+
 end C02
